@@ -166,7 +166,27 @@ def pure_check(prop, tier, seed):
     return P.report(prop, res, tier, seed, t0, ASSUME_PURE, rule)
 
 
+ASSUME_RECYCLE = [
+    "TLC is correct; the ledger allocator's counters (live bytes, peak, number of align-1 allocations) are exact",
+    "spec/Recycle.tla abstracts contents and uses scaled sizes (messages <= 3-4 bytes, buffers <= 40); its reserve transition is the same transcription of reserve_inner as in spec/BytesImpl.tla, which is bound to the code step by step (conformance in C01-C04)",
+    "the consumer keeps up: at most a bounded number of bytes stays unconsumed after each round (the premise of the property)",
+]
+
+
+def recycle_check(prop, tier, seed):
+    from . import recycle as R
+    t0 = time.time()
+    mcs = [R.mc("C18_k0", 0, tier), R.mc("C18_k0_scaled", 0, tier, minimal_cap=1, maxmsg=4, caps=(0, 1, 3, 6)), R.mc("C18_k1", 1, tier)]
+    if tier != "quick":
+        mcs.append(R.mc("C18_k2", 2, tier))
+        mcs.append(R.mc("C18_k1_scaled", 1, tier, minimal_cap=1, maxmsg=4, caps=(0, 1, 3, 6)))
+    res = R.run_patterns("C18_patterns", R.patterns(tier, seed))
+    return R.report(prop, mcs, res, tier, seed, t0, ASSUME_RECYCLE)
+
+
 def run(prop, tier, seed):
+    if prop == "C18":
+        return recycle_check(prop, tier, seed)
     if prop in ("C14", "C15"):
         return pure_check(prop, tier, seed)
     if prop in ("C05", "C06"):
